@@ -94,6 +94,9 @@ def to_index(ix):
         return slice(g(ix['a']), g(ix['b']), g(ix['s'])), None
     if t == 'ints':
         how = ix.get('as', 'list')
+        if how == 'range':
+            obj = range(*ix['r'])
+            return obj, obj
         if how == 'list':
             obj = list(ix['v'])
         elif how == 'tuple':
@@ -292,6 +295,13 @@ def index_exprs(n, tier, big=False):
             if m == 2:
                 yield dict(t='ints', v=list(t), **{'as': 'i8'})
                 yield dict(t='ints', v=list(t), **{'as': 'i2'})
+    # range objects are sequences of integers too (a range and a slice with the same numbers select differently when stop is negative)
+    for a in range(-2, n + 2):
+        for b in range(-n - 2, n + 3):
+            for st in (1, 2, -1, -2):
+                r = range(a, b, st)
+                if len(r) <= 6:
+                    yield dict(t='ints', v=list(r), r=[a, b, st], **{'as': 'range'})
     for m in (n - 1, n, n + 1):
         if m < 0:
             continue
@@ -311,7 +321,7 @@ class Indexing(Fam):
         nmax = 4 if ctx.tier == 'quick' else 5
         self.rule = (f'collections of length 0..{nmax} (array / list / annotated wrapper / HDF5 file / zero-copy window with bounds[0] != 0), three (k, prefix, dtype) variants incl. a '
                      f'dtype wider than the natural one; every int in -n-2..n+1, every slice with start/stop in a range or None and step in '
-                     f'+-1..3/None/0, every int list of length <=3 over -n-1..n (list, int8, int16, int64, uint64 arrays), every mask of '
+                     f'+-1..3/None/0, every int list of length <=3 over -n-1..n (list, int8, int16, int64, uint64 arrays), range objects with any start/stop and steps +-1, +-2, every mask of '
                      f'length n-1..n+1, ill-typed indices; non-trivial = n >= 2')
         for n in range(0, nmax + 1):
             items = make_items(n)
